@@ -823,3 +823,12 @@ def _variant_names(prog, adt):
     if m:
         return {v: k for k, v in m.items()}
     return {}
+
+
+def cmp_rx(a_rx, b_rx, rel, c=0):
+    """Regex matching the integer normal form of `A - B rel c` in either orientation (rel in '>=', '<=', '==', '!=').
+    a_rx / b_rx are regex fragments for the rendered terms."""
+    flip = {'>=': '<=', '<=': '>=', '==': '==', '!=': '!='}[rel]
+    f1 = r'cmp\[\+ %s - %s %s %d\]' % (a_rx, b_rx, re.escape(rel), c)
+    f2 = r'cmp\[\+ %s - %s %s %d\]' % (b_rx, a_rx, re.escape(flip), -c)
+    return '^(?:%s|%s)$' % (f1, f2)
